@@ -38,6 +38,11 @@ var Props = []*h.Prop{
 		Real:        realStore,
 		Stub:        stubStore,
 		Assumptions: []string{"fault-free configuration of the store simulation (faults are C04/C05)", "input space of payloads is sampled, not enumerated"}},
+	{ID: "C02", Run: c02,
+		Rule:        "one evaluation = one generated history of 1-4 raw write sessions (arbitrary column payloads, sizes biased to the 4 KiB / 8 KiB buffers and beyond, all encoders and levels) and 1-4 flow-level write-outs, every session executed by a freshly started writer of a drawn build configuration (cgo, CGO_ENABLED=0, goprobe_noliblz4, goprobe_nolibzstd; modes: a new draw per session / one non-default build writes everything / the same history written by two builds on two disks); after every session a freshly started reader of a drawn build, and after the last session one of each of the four builds, reads everything written so far (both reader modes, summaries) and queries the flow-level interfaces through the real engine; non-trivial = every run; distinct = distinct event-log hash",
+		Real:        append([]string{"encoder back ends of all four build configurations: lz4 (liblz4 via cgo), lz4 (pierrec/lz4), zstd (libzstd via cgo), zstd (klauspost/compress)"}, realStore...),
+		Stub:        append([]string{"the build configuration itself: the pure-Go back ends are compiled into the cgo binary under other type names and selected at run time through encoder.New (verif/rewrite encSeam); the four files that differ between the builds all run, the linker configuration of a CGO_ENABLED=0 binary does not"}, stubStore...),
+		Assumptions: []string{"only the four encoder back-end files differ between the build configurations (checked: no other file carries a cgo / goprobe_nolib* build constraint)", "fault-free configuration"}},
 	{ID: "C03", Run: c03,
 		Rule:        "one evaluation = one generated history of sessions whose timestamps come from a jumping clock (equal, backwards, before the day's first block, gaps of 2^32-1 and beyond, negative) and whose summaries reach beyond 2^32-1 / near 2^64, each checked accepted=>reopens equal / rejected=>day unchanged, followed by >= 30 malformed variants of the real .blockmeta (prefixes = torn metadata writes, bit flips, garbage, blown-up count and length fields) fed to the reader, the listing, the query engine and the writer's open path; non-trivial = every run; distinct = distinct event-log hash",
 		Real:        realStore,
